@@ -68,7 +68,12 @@ Theorem C16_nonpicking_noop : forall pick st a st',
   match a with
   | KeyDown => shift st' = true /\ Permutation (sel st) (sel st')
   | KeyUp => shift st' = false /\ Permutation (sel st) (sel st')
-  | KeyOther | ClickOut _ | Click BOther _ _ => shift st' = shift st /\ Permutation (sel st) (sel st')
+  | KeyOther | Click BOther _ _ => shift st' = shift st /\ Permutation (sel st) (sel st')
+  | ClickOut b =>   (* click outside the axes: nothing, or (right button, modifier held) exactly one pair less *)
+      shift st' = shift st /\
+      (Permutation (sel st) (sel st') \/
+       (shift st = true /\ b = BRight /\
+        exists e, In e (sel st) /\ Permutation (sel st) (e :: sel st') /\ length (sel st) = S (length (sel st'))))
   | _ => True
   end.
 Proof. exact nonpicking_noop. Qed.
